@@ -120,7 +120,7 @@ class Tag:
             np_ = norm_path(c[1]["path"])
             if np_ in ("core::ops::IndexMut::index_mut", "core::ops::Index::index", "core::slice::«impl [T]»::get",
                        "core::slice::«impl [T]»::get_mut", "core::slice::<impl [T]>::get", "core::slice::<impl [T]>::get_mut") and len(c[2]) >= 2:
-                idx = c[2][1]
+                idx = _old_value(c[2][1])
                 il = leaves(idx)
                 if ("field", "free_node") in il or ("field", "free_edge") in il:
                     return "FREE", lv, "indexed by the free-list head"
@@ -160,6 +160,20 @@ class Tag:
                     if pre:
                         base = ("place", s[1], tuple(pr[:wi]))
                     out.append((slot_key(base, b), "test of slot.weight at line %d" % t["line"]))
+                if s[0] == "call" and norm_path(s[1]["path"]) in ("core::option::Option::filter", "core::option::Option::is_some_and") and len(s[2]) >= 2:
+                    # slots.get(i).filter(|x| x.weight.is_some()): the liveness test sits in the closure
+                    clo = strip_casts(s[2][1])
+                    cb = self.facts.body(clo[1]) if isinstance(clo, tuple) and clo[0] == "agg" and len(clo) > 1 else None
+                    reads = False
+                    if cb is not None:
+                        for _, _, st2 in cb.stmts():
+                            pls = [st2["rv"]["pl"]] if st2["rv"].get("pl") else []
+                            pls += [q for q in (op_place(o_) for o_ in st2["rv"].get("o", [])) if q]
+                            for pl in pls:
+                                if any(isinstance(x, dict) and x.get("n") == "weight" and x.get("a") in SLOT_ADTS for x in pl["p"]):
+                                    reads = True
+                    if reads:
+                        out.append((slot_key(s[2][0], b), "Option::filter on slot.weight at line %d" % t["line"]))
                 if s[0] == "call" and callee_name(s[1]) in self.live_filters:
                     lv = set()
                     for a in b.blocks[s[3]]["term"]["args"][1:]:
@@ -169,6 +183,26 @@ class Tag:
                     out.append((("IDX", kind, frozenset(x for x in lv if x[0] in ("arg", "local") and x != ("arg", 1))),
                                 "liveness predicate %s at line %d" % (nm, t["line"])))
         return out
+
+
+def _old_value(e):
+    """mem::replace(dest, new) / Option::replace / mem::take return the OLD content of dest: the value does not derive from `new`"""
+    if isinstance(e, tuple):
+        if e[0] == "call" and norm_path(e[1]["path"]) in ("core::mem::replace", "core::option::Option::replace", "core::mem::take", "core::option::Option::take") and e[2]:
+            return ("call", e[1], [_old_value(e[2][0])], e[3]) if len(e) > 3 else ("call", e[1], [_old_value(e[2][0])])
+        if e[0] == "call":
+            return ("call", e[1], [_old_value(a) for a in e[2]]) + tuple(e[3:])
+        if e[0] in ("place",):
+            return ("place", _old_value(e[1]), e[2])
+        if e[0] == "ref":
+            return ("ref", e[1], _old_value(e[2]))
+        if e[0] in ("cast",):
+            return ("cast", _old_value(e[1]), e[2])
+        if e[0] == "bin":
+            return ("bin", e[1], _old_value(e[2]), _old_value(e[3]))
+        if e[0] == "un":
+            return ("un", e[1], _old_value(e[2]))
+    return e
 
 
 INDEXERS = ("core::ops::IndexMut::index_mut", "core::ops::Index::index", "core::slice::«impl [T]»::get",
